@@ -394,6 +394,35 @@ def c08(full):
     return out
 
 
+def c08_vs_model(full, view):
+    """The exported program is the image of the circuit *as built*: same multiset of instructions as the
+    translation of the reference model's content (the order is checked against the listing by c08)."""
+    from collections import Counter
+    st = full.get("STIM")
+    if not st or "stim" not in st:
+        return []
+    got = Counter(map(repr, expand_stim(st["stim"])))
+    want = Counter(map(repr, walk_listing(view["ops"], view["comps"], stim_of_label)))
+    if got != want:
+        return [F(["C08"], "stim-differs-from-model-translation", extra=list((got - want).elements())[:6], missing=list((want - got).elements())[:6])]
+    return []
+
+
+def c15_vs_model(full, view):
+    from collections import Counter
+    oq = full.get("OPENQL")
+    if not oq or "items" not in oq or oq.get("wait_unit") == "cycles":
+        return []
+    got = Counter()
+    for name, calls in _flat_items(oq["items"]):
+        for c in calls:
+            got[repr(c if c[0] != "wait" else c[:2])] += 1
+    want = Counter(repr(c if c[0] != "wait" else c[:2]) for c in walk_listing(view["ops"], view["comps"], openql_of_label))
+    if got != want:
+        return [F(["C15"], "openql-differs-from-model-translation", extra=list((got - want).elements())[:6], missing=list((want - got).elements())[:6])]
+    return []
+
+
 # --------------------------------------------------------------------------- C15
 def openql_of_label(label, durations=None):
     kind = label[0]
